@@ -15,6 +15,7 @@ import ModVerif.Proofs.ModfileC20Lax
 import ModVerif.Proofs.ModfileC20Ignore
 import ModVerif.Proofs.ModfileC20ModFinal
 import ModVerif.Proofs.ModfileC20Comment
+import ModVerif.Proofs.ModfileC20End
 namespace ModVerif.Props.C20
 open ModVerif ModVerif.Modfile
 
@@ -150,15 +151,51 @@ open Proofs.ModfileC20 in
       before / suffix / after) is `PosAt` the comment's text (which excludes the line end, LF or CRLF) —
       except the blank-line placeholder `Comment{}` of blocks (empty token, zero position), `CommentOK`;
     * `Line.end` is consistent (`PosOK`) and the input before it ends with the line's last token
-      (`EndsAt`).  Documented slack: `EndsAt` allows the LF / CRLF that `endToken` strips from a comment
-      token between the token text and the end position; that case needs a whole-line comment token
-      inside a line, which the lexer never delivers (a comment after other tokens is an end-of-line
-      comment) — that last fact is not proved, see lean/PENDING.md. -/
+      (`EndsAt`).  `EndsAt` allows the LF / CRLF that `endToken` strips from a comment token between the
+      token text and the end position; that slack is removed by `pos_consistent_exact` below (no token of
+      a line is a comment token). -/
 theorem pos_consistent (name data : Bytes) :
     match parse name data with
     | .ok t => FileOK data t
     | .error e => PosOK data e.pos :=
   parse_pos_consistent name data
+
+open Proofs.ModfileC20 in
+/-- `pos_consistent_exact` — `pos_consistent` with `Line.end` characterised EXACTLY: for every input, if `parse`
+    fails the error position is consistent; if it succeeds the tree satisfies `FileOK data` (every position of the
+    tree, see `pos_consistent`) and for EVERY line `l` of the tree, top-level or inside a block
+    (`FileSyntax.allLines`), `l.end` is a consistent position and `data.take l.end.byte` ends with the last token of
+    the line (`EndsExactly`) — no LF / CRLF in between, none of the three alternatives of `EndsAt` but the first.
+    A `(` in the middle of a top-level line does not move `end` (read.go keeps the old value) and is never the last
+    token of such a line: the token after it sets `end` before the line can end.
+    Proof (Proofs/ModfileC20End.lean): every state the parser can be in satisfies the lexer's classification
+    invariant (`reach_G`; `comment_after_token_is_eol_comment` below is its core: after a token of a line a `//`
+    is an end-of-line comment, after an end-of-line token it is a whole-line comment; stated on the consumed bytes
+    of the current source line decoded in context, so ill-formed UTF-8 and a quoted string with an escaped
+    newline are covered), hence no token accumulated by `parseStmtLoop` / `parseLineLoop` has a comment kind
+    (`next_not_comment`; the first token of a statement is no end-of-line comment since a statement starts after
+    an end-of-line token, `next_not_eolComment`) and `pos_consistent_tokens`' exact clause applies to each;
+    comment assignment leaves `token` and `end` of every line alone (`assignComments_endKeys`). -/
+theorem pos_consistent_exact (name data : Bytes) :
+    match parse name data with
+    | .ok t => FileOK data t ∧
+        ∀ l ∈ t.allLines, ∃ tok, l.token.getLast? = some tok ∧ EndsExactly data l.«end» tok
+    | .error e => PosOK data e.pos :=
+  parse_pos_consistent_exact name data
+
+/-- Non-vacuity of `pos_consistent_exact`: a go.mod with CRLF line ends, end-of-line comments, a block, a `(` in
+    the middle of a top-level line and a quoted string holding an escaped newline parses; the four lines end at
+    bytes 8 (`m`, before ` // c\r\n`), 31 (`v1`), 43 (`v2`, before `\r\n`) and 59 (`y`, on line 7 because of the
+    newline inside the string), each time right after the last token. -/
+example :
+    let data := B "module m // c\r\nrequire (\r\n\ta v1 // c\r\n\tb v2\r\n)\r\nx ( \"s\\\n\" y\r\n"
+    (match parse (B "go.mod") data with
+     | .ok t => decide (t.allLines.map (fun (l : Line) => (l.token.length, l.«end»)) =
+                          [(2, ⟨1, 9, 8⟩), (2, ⟨3, 6, 31⟩), (2, ⟨4, 6, 43⟩), (4, ⟨7, 4, 59⟩)]) &&
+                t.allLines.all (fun (l : Line) => match l.token.getLast? with
+                  | some tok => tok.isSuffixOf (data.take l.«end».byte)
+                  | none => false)
+     | .error _ => false) = true := by decide +kernel
 
 open Proofs.ModfileC20 in
 /-- `pos_consistent` for the error lists: every error of Parse, ParseLax and ParseWork (syntax error or
@@ -353,7 +390,7 @@ example :
      | .ok f => decide (f.module.map (·.mod.path) = some (modulePath x))
      | .error _ => false) = true := by decide +kernel
 
-/-! ### towards the exact `Line.end` statement of `pos_consistent`: whole-line comment tokens (lexer level) -/
+/-! ### behind the exact `Line.end` statement `pos_consistent_exact`: whole-line comment tokens (lexer level) -/
 
 /-- **A `//` comment that follows a token on its source line is an end-of-line comment, never a whole-line comment token.**
     `readComment` decides with `strings.TrimSpace(<bytes before the comment on its line>) == ""`; that test fails as soon as
@@ -361,8 +398,7 @@ example :
     whatever follows in `x`, ill-formed UTF-8 included (`TrimSpace s = "" ↔ Fields s = []`,
     `Edit.trimSpace_eq_nil_iff_fields`; no reasoning about the backward decoder of `TrimRight` is needed).  This is the
     lexer half of the residual slack of `pos_consistent` for `Line.end` (lean/PENDING.md): only a whole-line comment token
-    has its LF / CRLF stripped by `endToken`.  What is still missing is the parser half: carrying "the current source line
-    already holds a token" through `parseStmtLoop` / `parseLineLoop`. -/
+    has its LF / CRLF stripped by `endToken`; the parser half is `pos_consistent_exact` above. -/
 theorem comment_after_token_is_eol_comment (i i' : Input) (g x : Bytes) (h : readToken i = .ok i')
     (hpre : (i.consumedRev.takeWhile (· != 10)).reverse = g ++ x) (hg : Proofs.ModfileFmtTrim.SpaceSeq g) (hx : x ≠ [])
     (hs : UnicodePrint.isSpace (Utf8.decodeRune x).1 = false) : i'.token.kind ≠ .comment :=
